@@ -96,7 +96,14 @@ func LoadProg(root string, patterns []string, tags string, cs *ContractSet) (*Pr
 				short = pkgShort(tp)
 			}
 			for _, f := range fd.Fields {
-				p.guarded[short+"."+f] = short + "." + fd.By
+				by := fd.By
+				if !strings.Contains(by, ".") {
+					// the mutex is a field of the same struct type
+					if i := strings.LastIndex(f, "."); i >= 0 {
+						by = f[:i] + "." + by
+					}
+				}
+				p.guarded[short+"."+f] = short + "." + by
 			}
 		}
 	}
